@@ -1155,6 +1155,7 @@ func (a *A) firstPacketIdentity() {
 	if pd == nil {
 		return
 	}
+	pd = a.defaultProcess(pd) // parseData itself, or the default process it tail-calls with its packet group
 	if len(pd.Params) < 1 {
 		a.R.Unknown(rule, "anchor/parseData", a.fpos(pd), "parseData has no parameters")
 		return
